@@ -64,7 +64,8 @@ class IdleProbe:
         return ok
 
 # ------------------------------------------------------------------------------------------ C09
-CHAINS_OK = {"valid", "valid-under-neutral-intermediate", "wrongname", "intermediate-name"}     # chain to the configured CA, inside validity
+CHAINS_OK = {"valid", "valid-under-neutral-intermediate", "wrongname", "intermediate-name",
+             "name-uppercase", "name-titlecase", "name-unicode-fold", "name-trailing-space", "name-leading-space", "name-prefix", "name-extended"}     # chain to the configured CA, inside validity
 NAME_OK = {"valid", "valid-under-neutral-intermediate"}                                            # ... and the LEAF carries the rule name
 
 def gate_expected(config, cred, fault):
